@@ -92,6 +92,8 @@ def run_case(case, ctx):
                 if fl & {0, 9}:
                     labels.add('has_ignored')
                 so = gen.source_object(src)
+                if src.get('int_arrays'):
+                    labels.add('integer_typed_photometry')
                 # non-positive values on plot-only points are C03's concern; keep C01 focused on its own domain
                 with must_succeed('Fitter.fit'), quiet():
                     info = fitter.fit(so)
@@ -106,6 +108,8 @@ def run_case(case, ctx):
 @st.composite
 def cases(draw, thorough=False):
     c = draw(gen.fit_case_2d(max_models=12 if thorough else 8, max_filters=8 if thorough else 6))
+    # some sources carry their photometry as integers (a catalogue in integer mJy, Python ints): same numbers, other dtype
+    c['sources'] = [gen.integerize(s) if draw(st.integers(0, 3)) == 0 else s for s in c['sources']]
     # C01's domain: ignored points carry positive values here (arbitrary values are exercised in C03)
     return c
 
